@@ -211,8 +211,8 @@ def sym_prepare_resource(vc):
     fk = vc.under_contract(F + 'format_csv.py', ['CSVFormat', 'prepare_resource'])
     vc.under_contract(F + 'format_json.py', ['JSONFormat', 'prepare_resource'])
     vc.under_contract(F + 'base.py', ['FileFormat', 'prepare_resource'])
-    for fmt in ('csv', 'json'):
-        def thunk(it, fmt=fmt):
+    for fmt, mv in (('csv', None), ('json', None), ('csv', ['NA']), ('csv', ['', 'NA']), ('json', ['NA']), ('csv', [])):
+        def thunk(it, fmt=fmt, mv=mv):
             mc, mj, mb = load_formats(it)
             mod = mc if fmt == 'csv' else mj
             cls = mod.attrs['CSVFormat'] if fmt == 'csv' else mod.attrs['JSONFormat']
@@ -231,6 +231,8 @@ def sym_prepare_resource(vc):
             fstr = PyDict({'name': 's', 'type': 'string'})
             fbool = PyDict({'name': 'b', 'type': 'boolean'})
             desc = PyDict({'name': 'r', 'path': path0, 'schema': PyDict({'fields': PyList([fdate, fstr, fbool])})})
+            if mv is not None:
+                desc.d['schema'].d['missingValues'] = PyList(list(mv))
             res = Opaque('Resource', 'resource')
             res.attrs['descriptor'] = desc
             pr = it.lib.getattr_(it, cls, 'prepare_resource')
@@ -246,6 +248,14 @@ def sym_prepare_resource(vc):
                 check(it, 'boolean-field-stamped', fbool.d.get('trueValues') is not None and fbool.d['trueValues'].items == ['True'])
             check(it, 'temporal-field-gets-its-parse-format[%s]' % fmt, fdate.d.get('format') == FORMATS['DATE_P_FORMAT'])
             check(it, 'other-fields-untouched[%s]' % fmt, fstr.d == {'name': 's', 'type': 'string'})
+            # the written descriptor must let a reader recognise the null marker the format writes: a CSV null is the empty cell, so
+            # '' is among the recorded missing values (absent = the Table Schema default ['']); the values given are all kept
+            got_mv = d['schema'].d.get('missingValues')
+            got_list = list(got_mv.items) if got_mv is not None else None
+            if fmt == 'csv':
+                check(it, 'csv-null-marker-is-a-recorded-missing-value[%s]' % (mv,), got_list is None or '' in got_list)
+            check(it, 'given-missing-values-kept[%s,%s]' % (fmt, mv), (got_list is None) == (mv is None) and
+                  (mv is None or [x for x in got_list if x in mv] == list(mv)) and (fmt == 'csv' or got_list == mv))
         vc.explore(fk, thunk)
 
 
@@ -474,6 +484,18 @@ def nat_findings(h):
         r = h.run(lambda: Flow(load(os.path.join(d, 'c', 'datapackage.json'))).results()[0][0])
         h.check(r[0] == 'ok' and r[1] == [{'s': 'two\r\nlines', 'n': 1}], 'csv', "'two\\r\\nlines'", "'two\\r\\nlines'", r[1] if r[0] == 'ok' else r[:2])
         h.cur = h.cur.replace('/crlf-in-cell', '')
+        # nulls under a schema whose missingValues was set explicitly (without ''): they load back as nulls, for csv and json
+        from dataflows import update_schema, dump_to_zip
+        rows = [{'i': 1, 's': 'x'}, {'i': None, 's': None}, {'i': 3, 's': 'NA'}]
+        want = [{'i': 1, 's': 'x'}, {'i': None, 's': None}, {'i': 3, 's': None}]     # 'NA' is a declared missing value
+        for fmt in ('csv', 'json'):
+            for zipped in (False, True):
+                tgt = os.path.join(d, 'mv_%s_%s' % (fmt, zipped))
+                dumper = dump_to_zip(tgt + '.zip', format=fmt) if zipped else dump_to_path(tgt, format=fmt)
+                r0 = h.run(lambda: Flow([dict(r) for r in rows], update_schema(None, missingValues=['NA']), dumper).process())
+                src = load(tgt + '.zip', format='datapackage') if zipped else load(os.path.join(tgt, 'datapackage.json'))
+                r = h.run(lambda: Flow(src).results()[0][0])
+                h.check(r0[0] == 'ok' and r[0] == 'ok' and r[1] in (want, rows), 'explicit-missing-values', (fmt, zipped), want, r[1] if r[0] == 'ok' else r[:2])
         import csv as _csv, io
         raw = open(os.path.join(d, 'c', 'res_1.csv'), 'rb').read().decode('utf-8')
         cells = list(_csv.reader(io.StringIO(raw, newline='')))
